@@ -851,7 +851,19 @@ func AggregateWriteVariants(w io.Writer, start, end int, appendSNP bool, thresho
 	}
 
 	sort.SliceStable(order, func(i, j int) bool {
-		return order[i].Position < order[j].Position || (order[i].Position == order[j].Position && order[i].Changetype < order[j].Changetype) || (order[i].Position == order[j].Position && order[i].Changetype == order[j].Changetype && order[i].QueAl < order[j].QueAl)
+		if order[i].Position != order[j].Position {
+			return order[i].Position < order[j].Position
+		}
+		if order[i].Changetype != order[j].Changetype {
+			return order[i].Changetype < order[j].Changetype
+		}
+		if order[i].QueAl != order[j].QueAl {
+			return order[i].QueAl < order[j].QueAl
+		}
+		// the keys come out of a map in random order, so ties here (e.g. insertions of
+		// different lengths at one position, or one change in overlapping features) have
+		// to be broken or the output differs from run to run
+		return order[i].Representation < order[j].Representation
 	})
 
 	for _, V := range order {
